@@ -93,3 +93,32 @@ package isolation
 //@   panics never
 //@   witness n = len(rules)
 //@   replay loadrules_nil
+
+// whole-set rebuild: the raw map is recorded, a fresh map is published, and the caller's lists are not written
+// (frame: nothing allocated before the call changes except the two package variables). That the fresh map holds
+// exactly the valid rules is not proved here (nested map-of-slices invariant; see DESIGN.md).
+//@ func onRuleUpdate(rawResRulesMap) err
+//@   props C13
+//@   requires ruleMap != nil
+//@   ensures[never-fails] err == nil
+//@   ensures[raw-recorded] currentRules == rawResRulesMap
+//@   ensures[fresh-map] ruleMap != nil && fresh(ruleMap)
+//@   modifies ruleMap, currentRules
+//@   loop 1:
+//@     invariant[new-map] validResRulesMap != nil && fresh(validResRulesMap)
+//@     invariant[callers-lists-untouched] frame()
+//@   loop 2:
+//@     invariant[new-map] validResRulesMap != nil && fresh(validResRulesMap)
+//@     invariant[list-fresh] fresh(base(validResRules))
+//@     invariant[callers-lists-untouched] frame()
+
+//@ func rulesFrom(m) rules
+//@   props C13
+//@   ensures[fresh] cap(rules) == 0 || fresh(base(rules))
+//@   modifies nothing
+//@   loop 1:
+//@     invariant[fresh] cap(rules) == 0 || fresh(base(rules))
+//@     invariant[untouched] frame()
+//@   loop 2:
+//@     invariant[fresh] cap(rules) == 0 || fresh(base(rules))
+//@     invariant[untouched] frame()
